@@ -167,10 +167,10 @@ def brightest_obligations(chk):
     (different) maxima is the identity by the maxima's defining bounds, and the centroid sums are related by the Fubini rule."""
     b0, b1, B2 = z3.Ints("b0 b1 B2")
     frac = z3.Real("frac")
-    for lead_n in (1, 2):
-        def run(it, lead_n=lead_n):
+    for lead_n, dt in ((1, "float"), (2, "float"), (1, "int")):
+        def run(it, lead_n=lead_n, dt=dt):
             it.ctx.assume(z3.And(H >= 1, W >= 1, B >= 1, B2 >= 1, b0 >= 0, b0 < B, b1 >= 0, b1 < B2, frac > 0, frac < 1, frac * z3.ToReal(H * W) >= 2))
-            img = sym_arr("img", ([B] if lead_n == 1 else [B, B2]) + [H, W], prov={"img"})
+            img = sym_arr("img", ([B] if lead_n == 1 else [B, B2]) + [H, W], dtype=dt, prov={"img"})
             frame = npmodel.getitem(it, img, (b0,) if lead_n == 1 else (b0, b1))
             o_stack = it.call_repo(CN, "brightest_pixel", [img, frac])
             o_frame = it.call_repo(CN, "brightest_pixel", [frame, frac])
@@ -209,7 +209,7 @@ def brightest_obligations(chk):
                     hy.append(h)
                 goals.append(("%s.stack-item-equals-single-frame" % nm, z3.Implies(ss[1] != 0, es == ef), {"hyps": hy}))
             return goals
-        verify(chk, "brightest_pixel.stack-item=frame[%d leading ax%s]" % (lead_n, "is" if lead_n == 1 else "es"), CN + ":brightest_pixel,centre_of_gravity", run, post, clause="brightest",
+        verify(chk, "brightest_pixel.stack-item=frame[%d leading ax%s%s]" % (lead_n, "is" if lead_n == 1 else "es", "" if dt == "float" else ", integer frames"), CN + ":brightest_pixel,centre_of_gravity", run, post, clause="brightest",
                replay=lambda m, lead_n=lead_n: {"lead": lead_n, "H": num(m.eval(H, model_completion=True)), "W": num(m.eval(W, model_completion=True)), "B": num(m.eval(B, model_completion=True))},
                encoding="order statistic of numpy.sort uninterpreted (function of the row's contents); Sigma rule Fubini; maxima by their defining bounds",
                skip_defs=("divisor non-zero",))       # the divisor is the flux above the level: the clause is stated for frames where it is non-zero
@@ -223,7 +223,7 @@ def _ordstats(e):
         if not z3.is_expr(t) or t.get_id() in seen:
             continue
         seen.add(t.get_id())
-        if z3.is_app(t) and t.decl().name().startswith("OrdStat_"):
+        if z3.is_app(t) and t.decl().name().startswith("OrdStat"):
             out.append(t)
         st.extend(t.children())
     return out
